@@ -121,6 +121,10 @@ def pyvalue(v):
         return None
     if k == 'kerr':
         return _raise_keyerror
+    if k == 'zero':          # a zero that is not a builtin int / float: still 0, not null
+        import decimal
+        import fractions
+        return {'0': decimal.Decimal('0'), '0.00': decimal.Decimal('0.00'), '0j': 0j}.get(s, fractions.Fraction(0))
     if k == 'strobj':
         return (_Labelled, _IntLabel, _FloatLabel)[len(s) % 3](s)
     if k == 'elist':
